@@ -68,7 +68,20 @@ class Gen:
             self.emit(ind + 1, f"}}) : (!dart.stream<{ty}>, !dart.stream<{ty}>) -> !dart.stream<{ty}>")
             self.emit(ind + 1, f"dart.yield %s3 : !dart.stream<{ty}>")
             self.emit(ind, f"}}) {{tag = {self.tag} : i32}} : (memref<16x{ty}>, memref<16x{ty}>, memref<16x{ty}>) -> ()")
-        elif r < 0.85:
+        elif r < 0.78 and self.with_dart:
+            # one-input region on the xDMA: rescale down / up, kernels of two different extensions that share the kernel op class
+            # (a kernel no extension declares cannot be executed by the xDMA at all and is not generated)
+            ti, to, src, dst = self.rng.choice([("i32", "i8", self.rng.choice(["%a", "%b"]), "%e"), ("i8", "i32", "%g", self.rng.choice(["%c", "%d"]))])
+            self.emit(ind, f'"dart.operation"({src}, {dst}) <{{patterns = [{ID}, {ID}], accelerator = "snax_xdma", operandSegmentSizes = array<i32: 1, 1>}}> ({{')
+            self.emit(ind, f"^bb0(%s0 : !dart.stream<{ti}>, %s1 : !dart.stream<{to}>):")
+            self.emit(ind + 1, '%s3 = "dart.generic"(%s0) <{library_call = "snax_xdma"}> ({')
+            self.emit(ind + 1, f"^bb1(%k0 : {ti}, %k2 : {to}):")
+            self.emit(ind + 2, f"%k3 = kernel.rescale %k0 {{input_zp = 1 : i32, output_zp = -2 : i32, multiplier = array<i32: 1234>, shift = array<i8: 9>, min_int = -128 : i32, max_int = 127 : i32, double_round = false}} : ({ti}) -> {to}")
+            self.emit(ind + 2, f"dart.yield %k3 : {to}")
+            self.emit(ind + 1, f"}}) : (!dart.stream<{ti}>) -> !dart.stream<{to}>")
+            self.emit(ind + 1, f"dart.yield %s3 : !dart.stream<{to}>")
+            self.emit(ind, f"}}) {{tag = {self.tag} : i32}} : (memref<16x{ti}>, memref<16x{to}>) -> ()")
+        elif r < 0.88:
             self.emit(ind, f'"test.op"() {{tag = {self.tag} : i32}} : () -> ()')
         else:
             self.emit(ind, '"snax.cluster_sync_op"() : () -> ()')
@@ -98,7 +111,7 @@ class Gen:
         self.emit(2, "func.return")
         body = "\n".join(self.lines)
         return ("builtin.module {\n  func.func public @f(%a : memref<16xi32>, %b : memref<16xi32>, %c : memref<16xi32>, %d : memref<16xi32>, "
-                "%n : index, %p : i1, %q : i1) {\n" + body + "\n  }\n}\n"), body
+                "%e : memref<16xi8>, %g : memref<16xi8>, %n : index, %p : i1, %q : i1) {\n" + body + "\n  }\n}\n"), body
 
 
 def run(pid: str, tier: str, seed: int, selftest=False, replay=None) -> int:
@@ -122,7 +135,7 @@ def run(pid: str, tier: str, seed: int, selftest=False, replay=None) -> int:
         except Exception as e:
             raise MachineryError(f"generator produced invalid input {name}: {e}\n{text}")
         used = lambda a: any((a + t) in body for t in (" ", ",", ")", "\n"))
-        argdom = [[900001], [900002], [900003], [900004], [0, 1, 2] if used("%n") else [1], [0, 1] if used("%p") else [0], [0, 1] if used("%q") else [0]]
+        argdom = [[900001], [900002], [900003], [900004], [900005], [900006], [0, 1, 2] if used("%n") else [1], [0, 1] if used("%p") else [0], [0, 1] if used("%q") else [0]]
         for ncores in rng.sample([2, 3, 4, 5], 2):
             m = src.clone()
             try:
@@ -184,6 +197,6 @@ def run(pid: str, tier: str, seed: int, selftest=False, replay=None) -> int:
             if bad:
                 oi, verdict, na, nb = sorted(bad)[0]
                 o = oracle_at(c, oi)
-                rep.violation(c["name"], f"clause {verdict} fails on core {o['core']} for inputs {o['args'][4:]} ({na} original events, {nb} on this core; "
+                rep.violation(c["name"], f"clause {verdict} fails on core {o['core']} for inputs {o['args'][6:]} ({na} original events, {nb} on this core; "
                               f"{len(bad)}/{len(vs)} oracles)", {"source": c["text"], "after": c["after"], "oracle": o, "clause": verdict})
     return rep.finish(known)
